@@ -639,7 +639,7 @@ def history_line(rng, nt, hist, with_ftime):
 
 def check(run):
     run.prove(MODULE, THEOREMS)
-    run.source_tie(['SrcTrack'], 'GeoVerif.Props.C17Src', ['GV.C17Src.' + t for t in ('getitem_eq', 'hasDupLoop_eq', 'hasDup_eq', 'src_hasDup_iff', 'src_slice_unbounded')])
+    run.source_tie(['SrcTrack'], 'GeoVerif.Props.C17Src', ['GV.C17Src.' + t for t in ('init_eq', 'getitem_eq', 'hasDupLoop_eq', 'hasDup_eq', 'src_hasDup_iff', 'src_slice_unbounded')])
     rng = run.rng
 
     def tag(ln, a):
